@@ -109,6 +109,22 @@ Section RestrictionTie.
       (destruct (Z.ltb_spec 0 ic); destruct (Z.ltb_spec ic (nscc - 1)); destruct (Z.ltb_spec nscc ic); destruct (Z.ltb_spec ic (nrc - 1));
        try lia; cbn [andb app flat_map map fst snd apply_row2 fold_right]; rewrite ?app_nil_r; f_equal; f_equal; rsc; field; lra).
   Qed.
+
+  (* the extrapolated restriction (index-space 1/2 weights on the 7-point pattern): model row Rex_row *)
+  Theorem gen_extrapolated_restriction_is_model : forall (x : Z -> Z -> R) (ic jc : Z), (0 <= ic < nrc)%Z -> (0 <= jc < nthc)%Z ->
+    (ic < nscc -> @gen_extrapolated_restriction_circle Rsc nth nthc nrc nscc x ic jc =
+                  [ (((ic, jc), W_result_WAssign), @apply_row2 Rsc (@Rex_row Rsc nr nth ic jc) x) ])%Z /\
+    (nscc <= ic -> @gen_extrapolated_restriction_radial Rsc nth nthc nrc nscc x ic jc =
+                  [ (((ic, jc), W_result_WAssign), @apply_row2 Rsc (@Rex_row Rsc nr nth ic jc) x) ])%Z.
+  Proof.
+    intros x ic jc Hi Hj. destruct nthc_facts' as [E Hc]. pose proof nrc_facts as En.
+    split; intros Hs;
+      [unfold gen_extrapolated_restriction_circle|unfold gen_extrapolated_restriction_radial];
+      unfold Rex_row, InterpDefs.nrc; fold nrc; cbv zeta;
+      replace (ic * 2)%Z with (2 * ic)%Z by lia; replace (jc * 2)%Z with (2 * jc)%Z by lia; rwraps jc;
+      (destruct (Z.ltb_spec 0 ic); destruct (Z.ltb_spec ic (nscc - 1)); destruct (Z.ltb_spec nscc ic); destruct (Z.ltb_spec ic (nrc - 1));
+       try lia; cbn [andb app fst snd apply_row2 fold_right]; rewrite ?app_nil_r; f_equal; f_equal; rsc; field).
+  Qed.
 End RestrictionTie.
 
 
